@@ -1496,6 +1496,24 @@ fn inventory(file: &syn::File, src: &Src, it: &Item) -> ItemOut {
             syn::visit::visit_item_fn(self, f);
             self.cur.pop();
         }
+        fn visit_expr_binary(&mut self, b: &'ast syn::ExprBinary) {
+            // multiplication / addition sites with two non-literal operands (used by tools/commute_probe.py)
+            let kind = match b.op { syn::BinOp::Mul(_) => Some("mul"), syn::BinOp::Add(_) => Some("add"), _ => None };
+            if let Some(kind) = kind {
+                if !matches!(&*b.left, syn::Expr::Lit(_)) && !matches!(&*b.right, syn::Expr::Lit(_)) && !self.cur.is_empty() {
+                    let (ls, le) = self.src.range(b.left.span());
+                    let (rs, re) = self.src.range(b.right.span());
+                    let mut row = BTreeMap::new();
+                    row.insert("kind".to_string(), kind.to_string());
+                    row.insert("fn".to_string(), self.cur.join("::"));
+                    row.insert("line".to_string(), self.src.line_of(ls).to_string());
+                    row.insert("left".to_string(), format!("{ls}:{le}"));
+                    row.insert("right".to_string(), format!("{rs}:{re}"));
+                    self.rows.push(row);
+                }
+            }
+            syn::visit::visit_expr_binary(self, b);
+        }
         fn visit_expr_unsafe(&mut self, u: &'ast syn::ExprUnsafe) {
             let mut row = BTreeMap::new();
             row.insert("kind".to_string(), "unsafe".to_string());
